@@ -111,7 +111,8 @@ def r2(ctx, chk):
     chk.ob(rule, "NUMERAL_PATTERN splits on runs of \\d (any decimal digit)", ok, "pattern is %r" % pat,
            key={"function": tn.key, "construct": "NUMERAL_PATTERN"}, file=tn.file, function=tn.qual, line=tn.node.lineno)
     t = " ".join(ast.unparse(tn.node).split())
-    ok = "if token.isdecimal():" in t and "str(int(token)).zfill(len(token))" in t
+    import re as _re
+    ok = _re.search(r"if (\w+)\.isdecimal\(\):", t) is not None and _re.search(r"str\(int\((\w+)\)\)\.zfill\(len\(\1\)\)", t) is not None
     chk.ob(rule, "_translate_numerals converts exactly the str.isdecimal tokens (Nd, what int() accepts) and keeps their width", ok,
            "the guard/convert pair changed (isdigit would admit superscripts that int() rejects; dropping zfill loses leading zeros)",
            key={"function": tn.key, "construct": "isdecimal -> int -> zfill"}, file=tn.file, function=tn.qual, line=tn.node.lineno)
